@@ -149,7 +149,21 @@ func (con *Connection) Read(b []byte) (int, error) {
 		return con.DecryptedRead(b)
 	}
 
-	return con.connection.Read(b)
+	// Wait for the next bytes without consuming them. The session may switch to
+	// encryption while this read is blocked (the http server reads in the background
+	// while the pair-verify request is handled): bytes which arrive after the switch
+	// are encrypted and must not be returned as they are.
+	if con.buffered == nil {
+		con.buffered = bufio.NewReader(con.connection)
+	}
+	if _, err := con.buffered.Peek(1); err != nil {
+		return 0, err
+	}
+	if con.getDecrypter() != nil {
+		return con.DecryptedRead(b)
+	}
+
+	return con.buffered.Read(b)
 }
 
 // Close closes the connection and deletes the related session from the context.
